@@ -4,6 +4,7 @@ from itertools import permutations
 
 import numpy as np
 
+from mc import build
 from mc.build import Labeling, cmp_named, make_bn, named_table, ref_named, tbl_json
 from mc.gen.dags import all_dags, iso_classes
 from mc.gen.tables import bn_from_desc, core_descs, family_descs
@@ -223,7 +224,7 @@ def _state_prob(st, model, lab, ref, joint, g):
                 st.violation("get_state_probability", "exception", case, repr(ex)[:300], None)
                 continue
             st.compared += 1
-            if abs(got - float(exp)) > 1e-9:
+            if abs(got - float(exp)) > build.DEFAULT_TOL:
                 st.violation("get_state_probability", "wrong-value", case, got, float(exp))
     if g["lab"][0] in ("str", "multi") and ref.n >= 2:
         import pandas as pd
@@ -258,7 +259,7 @@ def _state_prob(st, model, lab, ref, joint, g):
                     for s in range(ref.card[v]):
                         col = lab.name(v) + "_" + str(lab.state(v, s))
                         st.compared += 1
-                        if col not in out.columns or abs(float(out[col].iloc[i]) - float(m.table[(s,)])) > 1e-9:
+                        if col not in out.columns or abs(float(out[col].iloc[i]) - float(m.table[(s,)])) > build.DEFAULT_TOL:
                             bad = (col, i, float(out[col].iloc[i]) if col in out.columns else None, float(m.table[(s,)]))
             if bad:
                 st.violation("predict_probability", "wrong-value", case, bad[2], {"col": bad[0], "row": bad[1], "exp": bad[3]})
